@@ -415,6 +415,43 @@ def nextEpochExt (P : Params) (e : EpochExt) (hdrNumber hdrCompact uncles durMs 
   let compact ← difficultyToCompact nd
   some { number, base, rem, prevHR := adj, start, length := L', compact }
 
+/-! ## whole-chain view: the epoch of every block of a chain
+
+What a node computes for the block after `tip`: `next_epoch_ext(tip header)` = the tip's epoch
+(`NonTailBlock` → `NonHeadBlock`), or for a tail block the next epoch from the statistics
+`get_block_epoch` collects (`total_uncles_count` and timestamps of the tip and of the previous epoch's
+last block).  The contextual `EpochVerifier` then requires the new block's `epoch` field to be
+`number_with_fraction(number)` of that epoch and its compact target to be the epoch's. -/
+
+structure ChainSt where
+  P : Params
+  cur : EpochExt        -- epoch of the tip
+  lastEndTs : Nat       -- timestamp of the last block of the previous epoch (block 0 in epoch 0)
+  lastEndTU : Nat       -- its total_uncles_count
+  tu : Nat              -- total_uncles_count of the tip
+  tipNumber : Nat
+  tipTs : Nat
+  deriving Repr
+
+/-- epoch of the block built on the tip; the flag says whether it is a new epoch (`HeadBlock`) -/
+def epochOfNext (s : ChainSt) : Option (EpochExt × Bool) := do
+  match ← getBlockEpoch s.tipNumber s.cur.start s.cur.length s.tu s.lastEndTU s.tipTs s.lastEndTs with
+  | none => some (s.cur, false)
+  | some (uncles, dur) =>
+    let e ← nextEpochExt s.P s.cur s.tipNumber s.cur.compact uncles dur
+    some (e, true)
+
+/-- append a block with `ts`, `nUncles` uncles: `(epoch field, compact target, head?)` the verifier demands -/
+def chainStep (s : ChainSt) (ts nUncles : Nat) : Option (ChainSt × Nat × Nat × Bool) := do
+  let (e, head) ← epochOfNext s
+  let number := s.tipNumber + 1
+  let field ← numberWithFraction e number
+  let s' : ChainSt :=
+    { s with cur := e, tu := s.tu + nUncles, tipNumber := number, tipTs := ts,
+             lastEndTs := if head then s.tipTs else s.lastEndTs,
+             lastEndTU := if head then s.tu else s.lastEndTU }
+  some (s', field, e.compact, head)
+
 /-- `next_epoch_ext`, `TailBlock` arm with `permanent_difficulty()` (dummy PoW dev chains): constant
 length `⌈T / MIN_BLOCK_INTERVAL⌉`, difficulty and hash-rate estimate copied. -/
 def nextEpochExtPermanent (P : Params) (e : EpochExt) (hdrNumber : Nat) : Option EpochExt := do
